@@ -46,6 +46,7 @@ pub fn extra_evidence(_prop: &str, _tier: &str) -> Option<Value> {
 struct Multi {
     hist: histx::HistX,
     crash: crashx::CrashX,
+    sched: schedx::SchedX,
 }
 
 impl Engine for Multi {
@@ -53,7 +54,9 @@ impl Engine for Multi {
         self.hist.plan(prop, tier)
     }
     fn run(&mut self, prop: &str, case: &Value) -> engine::Outcome {
-        if case.get("mode").is_some() {
+        if case.get("harness").is_some() {
+            self.sched.run(prop, case)
+        } else if case.get("mode").is_some() {
             self.crash.run(prop, case)
         } else {
             self.hist.run(prop, case)
@@ -63,11 +66,12 @@ impl Engine for Multi {
 
 fn make_engine(prop: &str) -> Option<Box<dyn Engine>> {
     match prop {
-        "C16" | "C19" => Some(Box::new(Multi {
+        "C02" | "C13" | "C16" | "C19" => Some(Box::new(Multi {
             hist: histx::HistX::new(),
             crash: crashx::CrashX::new(),
+            sched: schedx::SchedX::new(),
         })),
-        "C01" | "C02" | "C05" | "C06" | "C09" | "C10" | "C11" | "C12" | "C13" | "C16" | "C19" => Some(Box::new(histx::HistX::new())),
+        "C01" | "C05" | "C06" | "C09" | "C10" | "C11" | "C12" => Some(Box::new(histx::HistX::new())),
         "C03" | "C04" | "C14" | "C17" => Some(Box::new(crashx::CrashX::new())),
         "C15" | "C20" => Some(Box::new(schedx::SchedX::new())),
         "C07" | "C08" | "C18" => Some(Box::new(proofx::ProofX::new())),
